@@ -55,6 +55,8 @@ typedef struct { char * s; size_t n; } srcbuf;
 srcbuf * src_get(const char * id);
 void     src_set(const char * id, const char * s, size_t n);
 
+void pool_state(long * slabs, long * next);   /* slabs on the pool, object offset of pool.next in the newest slab (-1: NULL) */
+void pool_forget(void);
 extern long g_wrap_alloc_count;      /* pool_allocate_object calls since last reset */
 extern long g_wrap_rng_count;        /* ran_num_next calls */
 extern long g_wrap_rand_count;       /* rand() calls */
